@@ -106,3 +106,23 @@ Theorem C10_cantilever_tip_load_exact :
      frame_element E G A J Iy Iz L 11 7 * v1 + frame_element E G A J Iy Iz L 11 11 * rz1 = 0).
 Proof. intros; split; [apply cantilever_tip_load_exact | apply cantilever_tip_load_exact_y]; assumption. Qed.
 Print Assumptions C10_cantilever_tip_load_exact.
+
+(* nodal exactness for ANY number of collinear elements of any lengths: the closed-form deflection w and rotation (- w')
+   of a cantilever with a tip force P, evaluated at the nodes x 0 .. x ne, satisfy row (6 a + r) of the assembled system
+   for every node a other than the clamped one: the row gives P at the loaded tip's deflection DOF and 0 elsewhere.
+   rl = false: clamped at node 0, loaded at node ne; rl = true: clamped at node ne, loaded at node 0 (symmetric half wing) *)
+From OAS Require Import BeamCantilever.
+Theorem C10_cantilever_nodal_exact_any_number_of_elements :
+  forall (ne : nat) (x : nat -> R) (E G A J Iy Iz P : R), E <> 0 -> Iy <> 0 ->
+    (forall e, (e < ne)%nat -> x (S e) - x e <> 0) ->
+    forall (rl : bool) (a r : nat), (a <= ne)%nat -> (r < 6)%nat -> a <> (if rl then ne else 0%nat) ->
+    rsum (6 * S ne) (fun q => assembled ne (kl x E G A J Iy Iz) a r (q / 6) (q mod 6) * cu ne x E Iy P rl q)
+    = if ((a =? (if rl then 0 else ne))%nat && (r =? 2)%nat)%bool then P else 0.
+Proof. exact cantilever_nodal_exact. Qed.
+Print Assumptions C10_cantilever_nodal_exact_any_number_of_elements.
+
+Theorem C10_cantilever_root_fixed :
+  forall (ne : nat) (x : nat -> R) (E Iy P : R), E <> 0 -> Iy <> 0 ->
+    forall (rl : bool) (r : nat), (r < 6)%nat -> cu ne x E Iy P rl (6 * (if rl then ne else 0) + r) = 0.
+Proof. exact cantilever_root_fixed. Qed.
+Print Assumptions C10_cantilever_root_fixed.
